@@ -405,7 +405,9 @@ func (o *PipelineOracle) checkpoint(w *World, final bool) {
 							}
 							cc := wireNorm(dut, pc, c)
 							cc.PathID = 0
-							exp[fmt.Sprintf("%s id=%d %s", pfx, id, cc.Key(false))]++
+							// the view is keyed by (prefix, identifier): copies of one exported path stored
+							// under one identifier (a path exported twice on an add-path session) are one entry
+							exp[fmt.Sprintf("%s id=%d %s", pfx, id, cc.Key(false))] = 1
 						}
 					}
 					got := map[string]int{}
